@@ -50,7 +50,8 @@ def _poly_drift(order, frametimes):
     """
     order = int(order)
     pol = np.zeros((np.size(frametimes), order + 1))
-    tmax = float(frametimes.max())
+    # largest absolute time: not 0 even when the run ends at t = 0
+    tmax = float(np.abs(frametimes).max())
     for k in range(order + 1):
         pol[:, k] = (frametimes / tmax) ** k
     pol = _orthogonalize(pol)
